@@ -47,6 +47,7 @@ from scipy import signal
 from scipy import interpolate as interp
 
 from . import spectra
+from . import _verif
 from .logger import sift_logger, wrap_verbose
 from .support import ensure_1d_with_singleton, ensure_2d, EMDSiftCovergeError
 
@@ -112,6 +113,12 @@ def get_next_imf(X, env_step_size=1, max_iters=1000, energy_thresh=None,
     emd.sift.interp_envelope
 
     """
+    if _verif.active():
+        _verif.emit('get_next_imf', env_step_size=env_step_size, max_iters=max_iters,
+                    energy_thresh=energy_thresh, stop_method=stop_method, sd_thresh=sd_thresh,
+                    rilling_thresh=rilling_thresh, envelope_opts=envelope_opts,
+                    extrema_opts=extrema_opts, callers=_verif.callers())
+
     X = ensure_1d_with_singleton([X], ['X'], 'get_next_imf')
 
     if envelope_opts is None:
@@ -549,6 +556,12 @@ def _sift_with_noise(X, noise_scaling=None, noise=None, noise_mode='single',
 
     if noise_scaling is not None:
         noise = noise * noise_scaling
+
+    if _verif.active():
+        _verif.emit('sift_with_noise', job_ind=job_ind, noise_mode=noise_mode,
+                    noise=np.asarray(noise), X=np.asarray(X), max_imfs=max_imfs,
+                    sift_thresh=sift_thresh, imf_opts=imf_opts, envelope_opts=envelope_opts,
+                    extrema_opts=extrema_opts)
 
     ensX = X.copy() + noise
     imf = sift(ensX, sift_thresh=sift_thresh, max_imfs=max_imfs,
@@ -1244,6 +1257,11 @@ def get_padded_extrema(X, pad_width=2, mode='peaks', parabolic_extrema=False,
         Magnitude of each extrema
 
     """
+    if _verif.active():
+        _verif.emit('get_padded_extrema', pad_width=pad_width, mode=mode,
+                    parabolic_extrema=parabolic_extrema, loc_pad_opts=loc_pad_opts,
+                    mag_pad_opts=mag_pad_opts, callers=_verif.callers())
+
     if not loc_pad_opts:  # Empty dict evaluates to False
         loc_pad_opts = {'mode': 'reflect', 'reflect_type': 'odd'}
     else:
@@ -1400,6 +1418,10 @@ def interp_envelope(X, mode='upper', interp_method='splrep', extrema_opts=None,
         Interpolated amplitude envelope
 
     """
+    if _verif.active():
+        _verif.emit('interp_envelope', mode=mode, interp_method=interp_method,
+                    extrema_opts=extrema_opts, callers=_verif.callers())
+
     if not extrema_opts:  # Empty dict evaluates to False
         extrema_opts = {'pad_width': 2,
                         'loc_pad_opts': None,
